@@ -15,8 +15,8 @@ print a VIOLATION line.
 import argparse, glob, hashlib, json, os, re, shutil, subprocess, sys, time
 
 VERIF = os.path.dirname(os.path.abspath(__file__))
-REPO = os.environ.get("VERIF_REPO", "/repo")
-BUILD = os.environ.get("VERIF_BUILD", os.path.join(VERIF, ".build"))
+REPO = os.path.abspath(os.environ.get("VERIF_REPO", "/repo"))
+BUILD = os.path.abspath(os.environ.get("VERIF_BUILD", os.path.join(VERIF, ".build")))
 MOD = "github.com/libp2p/go-libp2p"
 def engine_pkgs():
     return sorted(d for d in os.listdir(os.path.join(VERIF, "engine"))
@@ -368,7 +368,7 @@ def run_check(pid, tier, replay=None, keep=False):
     ev, viols = merge(pid, spec, tier, records, wall, seed, [x[:2000] for x in infra])
     known = load_known()
     rc = 0
-    rpdir = os.environ.get("VERIF_REPLAY_DIR", os.path.join(VERIF, "replays"))
+    rpdir = os.path.abspath(os.environ.get("VERIF_REPLAY_DIR", os.path.join(VERIF, "replays")))
     os.makedirs(rpdir, exist_ok=True)
     new_v, known_hits = [], {}
     for v in viols:
@@ -399,7 +399,7 @@ def run_check(pid, tier, replay=None, keep=False):
     ev["violations"] = len(new_v)
     ev["coverage"]["known_findings_reproduced"] = known_hits
     if not replay:
-        evdir = os.environ.get("VERIF_EVIDENCE_DIR", os.path.join(VERIF, "evidence"))
+        evdir = os.path.abspath(os.environ.get("VERIF_EVIDENCE_DIR", os.path.join(VERIF, "evidence")))
         os.makedirs(evdir, exist_ok=True)
         json.dump(ev, open(os.path.join(evdir, pid + ".json"), "w"), indent=1)
     c = ev["coverage"]
